@@ -6,6 +6,7 @@ import (
 	"path/filepath"
 	"sort"
 
+	"github.com/JunNishimura/Goit/internal/fsutil"
 	"github.com/JunNishimura/Goit/internal/sha"
 	"github.com/fatih/color"
 )
@@ -44,14 +45,9 @@ func (b *branch) loadHash(rootGoitPath string) error {
 
 func (b *branch) write(rootGoitPath string) error {
 	branchPath := filepath.Join(rootGoitPath, "refs", "heads", b.Name)
-	f, err := os.Create(branchPath)
-	if err != nil {
-		return fmt.Errorf("fail to create %s: %w", branchPath, err)
-	}
-	defer f.Close()
-
-	if _, err := f.WriteString(b.hash.String()); err != nil {
-		return fmt.Errorf("fail to write hash(%s): %w", b.hash, err)
+	// never leave an empty or half-written branch file behind
+	if err := fsutil.WriteFileAtomic(rootGoitPath, branchPath, []byte(b.hash.String())); err != nil {
+		return fmt.Errorf("fail to write hash(%s) to %s: %w", b.hash, branchPath, err)
 	}
 
 	return nil
